@@ -13,6 +13,7 @@ RANGE = {'int': (-2**31, 2**31 - 1), 'long long': (-2**63, 2**63 - 1), 'unsigned
          'long': (-2**63, 2**63 - 1), 'unsigned int': (0, 2**32 - 1)}
 SIZEOF = {'int': 4, 'long long': 8, 'double': 8, 'long': 8, 'unsigned long': 8}
 NANV = D(z3.BoolVal(True), z3.RealVal(0))
+_splitcnt = itertools.count()
 
 
 class Unsupported(Exception):
@@ -229,6 +230,8 @@ class VCGen:
     def load(self, st, lv, node):
         if lv[0] == 'var':
             if lv[1] not in st.vars:
+                if lv[1] in ('stdout', 'stderr'):
+                    return ('file', lv[1])
                 raise Unsupported('unknown variable ' + lv[1])
             return st.vars[lv[1]]
         return self.rd(st, lv[1], node)
@@ -304,8 +307,11 @@ class VCGen:
             if op == '*':
                 return D(nan, a.val * b.val)
             if op == '/':
-                self.oblige(st, 'fdiv', z3.Or(nan, b.val != 0, a.val == 0), n, note='float division: divisor non-zero (or 0/0 -> NaN)')
-                return D(z3.Or(nan, b.val == 0), a.val / b.val)
+                # IEEE division by zero does not trap: x/0 = +-inf, 0/0 = NaN.  There is no infinity in the model, so the
+                # result is then an ARBITRARY double (any real or NaN): everything downstream must hold for any value.
+                hv = fresh('fdivz', R); hn = fresh('fdivz!n', B)
+                self.trusted.add('x/0.0 (+-inf) is modelled as an arbitrary double, not as an infinity')
+                return D(z3.Or(nan, z3.And(b.val == 0, z3.Or(a.val == 0, hn))), z3.If(b.val == 0, hv, a.val / b.val))
             cmp = {'<': lambda x, y: x < y, '>': lambda x, y: x > y, '<=': lambda x, y: x <= y,
                    '>=': lambda x, y: x >= y, '==': lambda x, y: x == y}
             if op in cmp:
@@ -530,7 +536,7 @@ class VCGen:
             return z3.IntVal(0)
         if name == '__builtin_isnan' or name == 'isnan':
             v = self.ev(st, argn[0]); return BI(self.todouble(v).nan)
-        if name in ('fabs', 'sqrt', 'exp', 'log', 'pow', 'fmin', 'fmax'):
+        if name in ('fabs', 'sqrt', 'exp', 'log', 'pow', 'fmin', 'fmax', 'floor', 'ceil'):
             args = [self.todouble(self.ev(st, a)) for a in argn]
             return self.libm(st, name, args, n)
         if name == 'abs':
@@ -559,6 +565,10 @@ class VCGen:
         a = args[0]
         if name == 'fabs':
             return D(a.nan, z3.If(a.val >= 0, a.val, -a.val))
+        if name == 'floor':
+            return D(a.nan, z3.ToReal(z3.ToInt(a.val)))
+        if name == 'ceil':
+            return D(a.nan, -z3.ToReal(z3.ToInt(-a.val)))
         if name == 'fmin' or name == 'fmax':
             b = args[1]
             pick = (a.val <= b.val) if name == 'fmin' else (a.val >= b.val)
@@ -579,8 +589,8 @@ class VCGen:
             # overflow to +inf is outside the model (reals for doubles): listed in the trusted base
             return D(a.nan, self.math('exp', a.val))
         if name == 'log':
-            self.oblige(st, 'fdiv', z3.Or(a.nan, a.val != 0), n, note='log(0) = -inf')
-            return D(z3.Or(a.nan, a.val < 0), self.math('log', a.val))
+            hv = fresh('logz', R)      # log(0) = -inf: arbitrary double, see '/'
+            return D(z3.Or(a.nan, a.val < 0), z3.If(a.val == 0, hv, self.math('log', a.val)))
         raise Unsupported(name)
 
     def malloc(self, st, n):
@@ -694,7 +704,7 @@ class VCGen:
                 a = toint(a)
             binds[pn] = a
         self.called.add(name)
-        env = SymEnv(self, st, binds)
+        env = SymEnv(self, st, binds, goal=True)
         for r in c.requires_:
             self.oblige(st, 'call-pre', env.boolean(r), n, note='%s requires %s' % (name, r), text=r)
         old = st.copy()
@@ -770,6 +780,14 @@ class VCGen:
             b = st.copy(); b.guard = z3.And(st.guard, z3.Not(c))
             ra = self.ex(a, n['inner'][1])
             rb = self.ex(b, n['inner'][2]) if len(n['inner']) > 2 else {'normal': b}
+            if set(ra) == {'normal'} and set(rb) == {'normal'}:
+                x = ra['normal']; y = rb['normal']
+                same = (all(x.vars.get(k) is v for k, v in st.vars.items()) and all(y.vars.get(k) is v for k, v in st.vars.items())
+                        and all(x.mem.get(k) is v for k, v in st.mem.items()) and all(y.mem.get(k) is v for k, v in st.mem.items())
+                        and all(x.alive.get(k) is v for k, v in st.alive.items()) and all(y.alive.get(k) is v for k, v in st.alive.items())
+                        and len(x.vars) == len(st.vars) and len(y.vars) == len(st.vars))
+                if same:
+                    return {'normal': st}      # an `if` without effect on the state (progress messages): keep the guard simple
             return {kk: merge([ra.get(kk), rb.get(kk)]) for kk in set(ra) | set(rb)}
         if k == 'ForStmt':
             init, _, cond, inc, body = n['inner']
@@ -930,7 +948,7 @@ class VCGen:
                 regs.add(p.region.name)
             else:
                 cn = m[1]; name = self.callee_name(cn)
-                if name in ('fprintf', 'printf', '__builtin_isnan', 'fabs', 'sqrt', 'exp', 'log', 'pow', 'fmin', 'fmax', 'abs'):
+                if name in ('fprintf', 'printf', '__builtin_isnan', 'fabs', 'sqrt', 'exp', 'log', 'pow', 'fmin', 'fmax', 'abs', 'floor', 'ceil'):
                     continue
                 if name in ('malloc', 'free'):
                     raise Unsupported('malloc/free inside a cut loop')
@@ -973,7 +991,7 @@ class VCGen:
         ordinal = self.loopno; self.loopno += 1
         spec = self.contract.loops.get(ordinal)
         line = n.get('line')
-        if spec is None or spec.unroll is not None:
+        if spec is None or spec.unroll is not None or not spec.invariant:
             return self.unroll(st, n, cond, inc, body, spec.unroll if spec else None)
         # drift anchor: induction variable named in the sidecar must be assigned in the loop
         av = set(); am = []
@@ -983,28 +1001,45 @@ class VCGen:
         if spec.var and spec.var not in av:
             raise Drift('%s loop %d (line %s): anchor variable %s is not assigned in this loop' % (self.fname, ordinal, line, spec.var))
         self.cutloops += 1
-        env = SymEnv(self, st, {}, old=self.entry)
+        env = SymEnv(self, st, {}, old=self.entry, goal=True); env.labels = {'loop': st}
         for iv in spec.invariant:
             self.oblige(st, 'inv-init', env.boolean(iv), line, note='loop %d invariant holds on entry: %s' % (ordinal, iv), text=iv)
         h, hv, hregs = self.havoc_for_loop(st, [body, inc])
-        envh = SymEnv(self, h, {}, old=self.entry)
+        envh = SymEnv(self, h, {}, old=self.entry); envh.labels = {'loop': st}
         for iv in spec.invariant:
             self.assumes.append(z3.Implies(h.guard, envh.boolean(iv)))
+        for (lname, ltxt) in spec.assume:
+            self.assumes.append(z3.Implies(h.guard, envh.boolean(ltxt)))
+            self.trusted.add('external lemma %s (Lean file lean/%s.lean, checked in the thorough tier), instance: %s' % (lname, lname, ltxt))
         hc = h.copy()
         c = self.truth(self.ev(hc, cond)) if cond else z3.BoolVal(True)
         b = hc.copy(); b.guard = z3.And(hc.guard, c)
         var0 = None
         if spec.variant:
-            var0 = SymEnv(self, b, {}, old=self.entry).num(SymEnv(self, b, {}, old=self.entry).eval(spec.variant))
+            var0 = SymEnv(self, b, {}, old=self.entry, goal=True).num(SymEnv(self, b, {}, old=self.entry, goal=True).eval(spec.variant))
             self.oblige(b, 'variant', var0 >= 0, line, note='loop %d variant non-negative when the loop continues: %s' % (ordinal, spec.variant), text=spec.variant)
         r = self.ex(b, body)
         nxt = merge([r.get('normal'), r.get('continue')])
         if nxt is not None:
+            if spec.hints:
+                envb = SymEnv(self, nxt, {}, old=self.entry, goal=True)
+                envb2 = SymEnv(self, nxt, {}, old=self.entry)
+                for ht in spec.hints:
+                    self.oblige(nxt, 'hint', envb.boolean(ht), line, note='loop %d intermediate assertion at the end of the body: %s' % (ordinal, ht), text=ht)
+                    self.assumes.append(z3.Implies(nxt.guard, envb2.boolean(ht)))
             if inc:
                 self.ev(nxt, inc)
-            envn = SymEnv(self, nxt, {}, old=self.entry)
+            envn = SymEnv(self, nxt, {}, old=self.entry, goal=True); envn.labels = {'loop': st}
+            iv0 = hc.vars.get(spec.var) if spec.var else None
             for iv in spec.invariant:
-                self.oblige(nxt, 'inv-pres', envn.boolean(iv), line, note='loop %d invariant preserved: %s' % (ordinal, iv), text=iv)
+                g = envn.boolean(iv)
+                parts = self.split_at(g, iv0) if (iv0 is not None and z3.is_expr(iv0) and z3.is_int(iv0) and self.range_mentions(iv, spec.var)) else None
+                if parts:
+                    # quantified invariant: elements established by earlier iterations / the element of this iteration
+                    self.oblige(nxt, 'inv-pres', parts[0], line, note='loop %d invariant preserved (earlier iterations): %s' % (ordinal, iv), text=iv)
+                    self.oblige(nxt, 'inv-pres', parts[1], line, note='loop %d invariant preserved (this iteration): %s' % (ordinal, iv), text=iv)
+                else:
+                    self.oblige(nxt, 'inv-pres', g, line, note='loop %d invariant preserved: %s' % (ordinal, iv), text=iv)
             if spec.variant:
                 var1 = envn.num(envn.eval(spec.variant))
                 self.oblige(nxt, 'variant', var1 < var0, line, note='loop %d variant decreases: %s' % (ordinal, spec.variant), text=spec.variant)
@@ -1023,6 +1058,35 @@ class VCGen:
         if out['normal'] is not None:
             self.cover(out['normal'], 'after loop %d' % ordinal, line)
         return out
+
+    def range_mentions(self, txt, var):
+        """does the range of the outermost forall of this clause mention the induction variable?"""
+        n = parsec(txt)
+        while isinstance(n, ast.Call) and isinstance(n.func, ast.Name) and n.func.id == 'implies':
+            n = n.args[1]
+        if isinstance(n, ast.Call) and isinstance(n.func, ast.Name) and n.func.id == 'forall':
+            return any(isinstance(x, ast.Name) and x.id == var for x in ast.walk(n.args[1]))
+        return False
+
+    def split_at(self, g, val):
+        """ForAll k rest. B  ==  (ForAll k rest. k != val => B)  and  (ForAll rest. B[k := val])"""
+        if z3.is_implies(g):
+            sub = self.split_at(g.arg(1), val)
+            if sub is None:
+                return None
+            return z3.Implies(g.arg(0), sub[0]), z3.Implies(g.arg(0), sub[1])
+        if not (z3.is_quantifier(g) and g.is_forall()):
+            return None
+        n = g.num_vars()
+        if g.var_sort(0) != I:
+            return None
+        vs = [z3.Const('%s!s%d' % (g.var_name(i), next(_splitcnt)), g.var_sort(i)) for i in range(n)]
+        body = z3.substitute_vars(g.body(), *reversed(vs))
+        k = vs[0]
+        a = z3.ForAll(vs, z3.Implies(k != val, body))
+        inst = z3.substitute(body, (k, val))
+        b = z3.ForAll(vs[1:], inst) if n > 1 else inst
+        return a, b
 
     def syntactic_variant(self, cond, inc, body):
         """for(...; i < N; i++) with i and N not assigned in the body"""
@@ -1099,28 +1163,48 @@ class VCGen:
                                 what=what, hyp=list(self.assumes) + [st.guard]))
 
     # ------------------------------------------------------------------ ghost functions and lemmas
+    def declare_ghosts(self):
+        """three symbols per recursive ghost: f2 (goal terms), f1 (assumed terms), f0 (no unfolding): f2 -> f1 -> f0"""
+        self.ghostfuns = {}; self.ghost_level = {}
+        for gh in self.contract.ghosts:
+            sort = {'int': I, 'real': R, 'bool': B}[gh.sort]
+            sig = [I] * len(gh.params) + [sort]
+            rec = gh.body is not None and re.search(r'\b%s\s*\(' % re.escape(gh.name), gh.body) is not None
+            if rec:
+                fns = [z3.Function('%s!%s!f%d' % (gh.name, self.fname, k), *sig) for k in range(3)]
+            else:
+                fns = [z3.Function('%s!%s' % (gh.name, self.fname), *sig)]
+            self.ghostfuns[gh.name] = (fns, gh)
+
     def setup_ghosts(self, st):
         c = self.contract
-        self.ghostfuns = {}
         for gh in c.ghosts:
-            sort = {'int': I, 'real': R, 'bool': B}[gh.sort]
-            f = z3.Function('%s!%s' % (gh.name, self.fname), *([I] * len(gh.params) + [sort]))
-            self.ghostfuns[gh.name] = (f, gh)
-        for gh in c.ghosts:
-            f, _ = self.ghostfuns[gh.name]
-            vs = [z3.Int('%s!g' % p) for p in gh.params]
-            env = SymEnv(self, self.entry, dict(zip(gh.params, vs)), old=self.entry)
-            body = env.eval(gh.body)
-            if gh.sort == 'bool':
-                body = env.tobool(body); eq = f(*vs) == body
-            elif gh.sort == 'real':
-                eq = f(*vs) == toreal(env.num(body))
-            else:
-                eq = f(*vs) == env.num(body)
-            self.assumes.append(z3.ForAll(vs, eq, patterns=[f(*vs)]))
-            self.axioms_listed.append('definition of ghost %s(%s) := %s' % (gh.name, ','.join(gh.params), gh.body))
-            # well-foundedness of the recursive definition (consistency of the axiom)
+            fns, _ = self.ghostfuns[gh.name]
+            if gh.body is None:
+                # uninterpreted ghost (existential witness constrained only by `requires`, e.g. a height function)
+                self.axioms_listed.append('ghost %s(%s): uninterpreted, constrained by requires only' % (gh.name, ','.join(gh.params)))
+                continue
+            # well-foundedness of the recursive definition first (consistency of the axiom), using only what
+            # is already established: requires and the definitions of earlier ghosts
             self.check_decreases(gh)
+            vs = [z3.Int('%s!g' % p) for p in gh.params]
+            for lvl in range(len(fns) - 1, 0, -1) if len(fns) > 1 else [0]:
+                # f_lvl(args) == body[f := f_(lvl-1)]
+                self.ghost_level[gh.name] = max(lvl - 1, 0)
+                env = SymEnv(self, self.entry, dict(zip(gh.params, vs)), old=self.entry)
+                body = env.eval(gh.body)
+                del self.ghost_level[gh.name]
+                f = fns[lvl]
+                if gh.sort == 'bool':
+                    body = env.tobool(body); eq = f(*vs) == body
+                elif gh.sort == 'real':
+                    eq = f(*vs) == toreal(env.num(body))
+                else:
+                    eq = f(*vs) == env.num(body)
+                self.assumes.append(z3.ForAll(vs, eq, patterns=[f(*vs)]))
+                if lvl > 0:
+                    self.assumes.append(z3.ForAll(vs, f(*vs) == fns[lvl - 1](*vs), patterns=[f(*vs)]))
+            self.axioms_listed.append('definition of ghost %s(%s) := %s' % (gh.name, ','.join(gh.params), gh.body))
         for lm in c.lemmas:
             self.prove_lemma(lm)
 
@@ -1153,6 +1237,14 @@ class VCGen:
             for ch in ast.iter_child_nodes(n):
                 walk(ch, conds)
         walk(tree, [])
+        if not any(cn.func.id == gh.name for cn, _ in calls):
+            for cn, _ in calls:
+                order = [g.name for g in self.contract.ghosts]
+                if order.index(cn.func.id) > order.index(gh.name):
+                    raise ContractError('ghost %s calls later ghost %s' % (gh.name, cn.func.id))
+            return
+        if gh.decreases is None:
+            raise ContractError('recursive ghost %s needs a decreases measure' % gh.name)
         vs = [z3.Int('%s!g' % p) for p in gh.params]
         env = SymEnv(self, self.entry, dict(zip(gh.params, vs)), old=self.entry)
         order = [g.name for g in self.contract.ghosts]
@@ -1171,35 +1263,42 @@ class VCGen:
             env2 = SymEnv(self, self.entry, dict(zip(gh.params, args)), old=self.entry)
             m1 = env2.num(env2.eval(gh.decreases))
             st2 = State(); st2.guard = z3.And(*hyps) if hyps else z3.BoolVal(True)
-            saved = self.assumes; self.assumes = [a for a in saved if not z3.is_quantifier(a)]
             self.oblige(st2, 'ghost-wf', z3.And(m1 < m0, m1 >= 0), 0, note='recursive definition of %s is well-founded (measure %s)' % (gh.name, gh.decreases), text=gh.body)
-            self.assumes = saved
 
     def prove_lemma(self, lm):
         st = State()
         fixed = {v: z3.Int('%s!l' % v) for v in lm.fixed}
+        E = lambda binds, goal: SymEnv(self, self.entry, binds, old=self.entry, goal=goal)
+        trig = [lm.trigger] if isinstance(lm.trigger, str) else (lm.trigger or [])
         if lm.var:
             v = z3.Int('%s!l' % lm.var)
-            env = SymEnv(self, self.entry, dict(fixed, **{lm.var: v}), old=self.entry)
+            env = E(dict(fixed, **{lm.var: v}), False)
             lo = env.num(env.eval(lm.lo)); pre = env.boolean(lm.pre)
-            base = SymEnv(self, self.entry, dict(fixed, **{lm.var: lo}), old=self.entry)
-            step = SymEnv(self, self.entry, dict(fixed, **{lm.var: v + 1}), old=self.entry)
             st.guard = pre
-            self.oblige(st, 'lemma-base', base.boolean(lm.stmt), 0, note='lemma %s, base case %s = %s' % (lm.name, lm.var, lm.lo), text=lm.stmt)
+            self.oblige(st, 'lemma-base', E(dict(fixed, **{lm.var: lo}), True).boolean(lm.stmt), 0, note='lemma %s, base case %s = %s' % (lm.name, lm.var, lm.lo), text=lm.stmt)
             st2 = State(); st2.guard = z3.And(pre, v >= lo, env.boolean(lm.stmt))
-            self.oblige(st2, 'lemma-step', step.boolean(lm.stmt), 0, note='lemma %s, induction step on %s' % (lm.name, lm.var), text=lm.stmt)
+            self.oblige(st2, 'lemma-step', E(dict(fixed, **{lm.var: v + 1}), True).boolean(lm.stmt), 0, note='lemma %s, induction step on %s' % (lm.name, lm.var), text=lm.stmt)
             allv = list(fixed.values()) + [v]
             stmt = z3.Implies(z3.And(pre, v >= lo), env.boolean(lm.stmt))
-            pats = [self._pat(env, p) for p in ([lm.trigger] if isinstance(lm.trigger, str) else (lm.trigger or []))]
+            if lm.instance:
+                # P(n) also holds below the base (usually vacuously): then every textual instance n := e is a
+                # consequence, and only that instance is kept as an assumption
+                st3 = State(); st3.guard = z3.And(pre, v < lo)
+                self.oblige(st3, 'lemma-base', E(dict(fixed, **{lm.var: v}), True).boolean(lm.stmt), 0, note='lemma %s holds below the base %s < %s' % (lm.name, lm.var, lm.lo), text=lm.stmt)
+                txt = re.sub(r'\b%s\b' % re.escape(lm.var), '(' + lm.instance + ')', lm.stmt)
+                envi = E(dict(fixed), False)
+                inst = envi.boolean(txt)
+                fv = list(fixed.values())
+                self.assumes.append(z3.ForAll(fv, z3.Implies(pre, inst)) if fv else z3.Implies(pre, inst))
+                return
+            pats = [self._pat(env, p) for p in trig]
         else:
-            env = SymEnv(self, self.entry, dict(fixed), old=self.entry)
+            env = E(dict(fixed), False)
             pre = env.boolean(lm.pre); st.guard = pre
-            for h in lm.hints:
-                self.assumes.append(env.boolean(h))
-            self.oblige(st, 'lemma-base', env.boolean(lm.stmt), 0, note='lemma %s' % lm.name, text=lm.stmt)
+            self.oblige(st, 'lemma-base', E(dict(fixed), True).boolean(lm.stmt), 0, note='lemma %s' % lm.name, text=lm.stmt)
             allv = list(fixed.values())
             stmt = z3.Implies(pre, env.boolean(lm.stmt))
-            pats = [self._pat(env, p) for p in ([lm.trigger] if isinstance(lm.trigger, str) else (lm.trigger or []))]
+            pats = [self._pat(env, p) for p in trig]
         if allv:
             kw = {}
             if pats:
@@ -1217,15 +1316,16 @@ class VCGen:
 
     # ------------------------------------------------------------------ function
     def function(self, name):
-        if name not in self.funcs:
-            raise Drift('function %s not found in %s' % (name, self.relpath))
+        cname = name.split('#')[0]          # 'f#variant': a second contract (stronger requires) for the same function
+        if cname not in self.funcs:
+            raise Drift('function %s not found in %s' % (cname, self.relpath))
         if name not in self.contracts:
             raise Drift('no contract for %s' % name)
-        self.fname = name; fn = self.funcs[name]; c = self.contract = self.contracts[name]
+        self.fname = name; fn = self.funcs[cname]; c = self.contract = self.contracts[name]
         self.loopno = 0; self.assumes = []; self.regions = {}; self.obls = []; self.covers = []
         self.counter = {}; self.mallocs = 0; self.called = set(); self.trusted = set(); self.axioms_listed = []
         self.cutloops = 0; self.unrolled = 0; self.terminating = 0; self.nonterminating = []
-        self.mathterms = []; self.mathfuns = {}
+        self.mathterms = []; self.mathfuns = {}; self.ghost_level = {}
         self.rett = ctype(cast.ret_type(fn))
         body = cast.body_of(fn)
         # locals: types (for havoc ranges) and never-assigned `static double zero = 0.0`
@@ -1279,6 +1379,7 @@ class VCGen:
         self.params = [p for p, _ in params]
         self.assigns = []
         env = SymEnv(self, st, {}, old=self.entry)
+        self.declare_ghosts()
         self.requires_z3 = [env.boolean(r) for r in c.requires_]
         self.assumes += self.requires_z3
         self.assigns = [env.assigns_spec(a) for a in c.assigns_]
@@ -1296,7 +1397,7 @@ class VCGen:
         for p in self.params:
             post.vars[p] = self.entry.vars[p]       # parameter names in `ensures` denote entry values
         res = fin.vars.get('!ret')
-        envp = SymEnv(self, post, {}, old=self.entry, result=res)
+        envp = SymEnv(self, post, {}, old=self.entry, result=res, goal=True)
         for e in c.ensures_:
             self.oblige(fin, 'post', envp.boolean(e), 'exit', note='ensures %s' % e, text=e)
         return self.obls
